@@ -104,19 +104,19 @@ fn append(d: u16, locals: Vec<VerificationTypeInfo>) { roundtrip(smt(StackMapFra
 fn two_vti() -> VerificationTypeInfo { if sym::bool() { VerificationTypeInfo::Top {} } else { VerificationTypeInfo::Object { cpool_index: sym::u16() } } }
 fn smt(frame: StackMapFrame) -> AttributeInfo { let mut v = Vec::with_capacity(1); v.push(frame); AttributeInfo::StackMapTable { attribute_name_index: 1, entries: v } }
 
-//# {"id":"c20_frame_append_1","props":["C20"],"tier":"thorough","cap":3600,"bound":"StackMapTable with one AppendFrame of 1 local (Top, or Object with symbolic index), symbolic offset: framing, announced length, read(write(x)) == x; unwind 16","fns":["AttributeInfo::{_write,_len,_read}","StackMapFrame::{_write,_len,_read}","VerificationTypeInfo::{_write,_len,_read}","pool_has_utf8"]}
-//# {"id":"c20_frame_append_3","props":["C20"],"tier":"thorough","cap":3600,"bound":"... AppendFrame of 3 locals (Integer, Object x, Uninitialized y / Object x, Long, Null; x, y symbolic); unwind 16","fns":["StackMapFrame::{_write,_len,_read}"]}
-//# {"id":"c20_frame_chop_full","props":["C20"],"tier":"thorough","cap":3600,"bound":"ChopFrame with k = 1, 2, 3 and FullFrame (1 Object local with symbolic index, 1 Float stack item), symbolic offsets; unwind 16","fns":["StackMapFrame::{_write,_len,_read}"]}
-//# {"id":"c20_stack_map_roundtrip","props":["C20"],"tier":"thorough","cap":3600,"bound":"StackMapTable with one frame of each of the seven kinds (symbolic offsets, chop count 1..=3, append with 1..=3 locals, full frame with one local and one stack item, every verification type with symbolic index): attribute_length, announced length, and read(write(x)) == x consuming all bytes; unwind 16","fns":["AttributeInfo::{_write,_len,_read}","StackMapFrame::{_write,_len,_read}","VerificationTypeInfo::{_write,_len,_read}","pool_has_utf8"]}
-//# {"id":"c20_simple_roundtrip","props":["C20"],"tier":"quick","cap":1500,"bound":"read(write(x)) == x for EnclosingMethod, NestMembers (2 entries), MethodParameters (1 entry), Exceptions (1 entry) with symbolic field values; unwind 24","fns":["AttributeInfo::{_write,_len,_read}","pool_has_utf8"]}
-//# {"id":"c20_attr_fixed","props":["C20"],"tier":"quick","cap":600,"bound":"the nine fixed-size attributes (ConstantValue, EnclosingMethod, Synthetic, Signature, SourceFile, Deprecated, ModuleMainClass, NestHost) with all u16 field values; unwind 8","fns":["raw_class_file::AttributeInfo::{_write,_len}"]}
-//# {"id":"c20_index_table_0","props":["C20"],"tier":"quick","cap":600,"bound":"Exceptions / ModulePackages / NestMembers / PermittedSubclasses with 0 entries; unwind 8","fns":["AttributeInfo::{_write,_len}"]}
-//# {"id":"c20_index_table_1","props":["C20"],"tier":"quick","cap":600,"bound":"Exceptions / ModulePackages / NestMembers / PermittedSubclasses with 1 entry, all u16 values; unwind 8","fns":["AttributeInfo::{_write,_len}"]}
-//# {"id":"c20_index_table_2","props":["C20"],"tier":"quick","cap":900,"bound":"... with 2 entries, all u16 values; unwind 8","fns":["AttributeInfo::{_write,_len}"]}
-//# {"id":"c20_method_parameters_0","props":["C20"],"tier":"quick","cap":600,"bound":"MethodParameters with 0 parameters; unwind 8","fns":["AttributeInfo::{_write,_len}","MethodParametersEntry::{_write,_len}"]}
-//# {"id":"c20_method_parameters_2","props":["C20"],"tier":"quick","cap":900,"bound":"MethodParameters with 2 parameters, all u16 values; unwind 8","fns":["AttributeInfo::{_write,_len}","MethodParametersEntry::{_write,_len}"]}
-//# {"id":"c20_byte_blobs","props":["C20"],"tier":"quick","cap":900,"bound":"SourceDebugExtension / Other with 0..=2 payload bytes (length concrete per branch), LineNumberTable with 1 entry; unwind 8","fns":["AttributeInfo::{_write,_len}","LineNumberTableEntry::{_write,_len}"]}
-//# {"id":"c20_cp_info","props":["C20"],"tier":"quick","cap":900,"bound":"every fixed-size constant-pool entry kind with all field values, Utf8 with 0..=2 bytes: tag, layout, announced length; unwind 8","fns":["raw_class_file::CpInfo::{_write,_len}"]}
+//# {"id":"c20_frame_append_1","props":["C20"],"tier":"thorough","cap":3600,"cover_playback":false,"bound":"StackMapTable with one AppendFrame of 1 local (Top, or Object with symbolic index), symbolic offset: framing, announced length, read(write(x)) == x; unwind 16","fns":["AttributeInfo::{_write,_len,_read}","StackMapFrame::{_write,_len,_read}","VerificationTypeInfo::{_write,_len,_read}","pool_has_utf8"]}
+//# {"id":"c20_frame_append_3","props":["C20"],"tier":"thorough","cap":3600,"cover_playback":false,"bound":"... AppendFrame of 3 locals (Integer, Object x, Uninitialized y / Object x, Long, Null; x, y symbolic); unwind 16","fns":["StackMapFrame::{_write,_len,_read}"]}
+//# {"id":"c20_frame_chop_full","props":["C20"],"tier":"thorough","cap":3600,"cover_playback":false,"bound":"ChopFrame with k = 1, 2, 3 and FullFrame (1 Object local with symbolic index, 1 Float stack item), symbolic offsets; unwind 16","fns":["StackMapFrame::{_write,_len,_read}"]}
+//# {"id":"c20_stack_map_roundtrip","props":["C20"],"tier":"thorough","cap":3600,"cover_playback":false,"bound":"StackMapTable with one frame of each of the seven kinds (symbolic offsets, chop count 1..=3, append with 1..=3 locals, full frame with one local and one stack item, every verification type with symbolic index): attribute_length, announced length, and read(write(x)) == x consuming all bytes; unwind 16","fns":["AttributeInfo::{_write,_len,_read}","StackMapFrame::{_write,_len,_read}","VerificationTypeInfo::{_write,_len,_read}","pool_has_utf8"]}
+//# {"id":"c20_simple_roundtrip","props":["C20"],"tier":"quick","cap":1500,"cover_playback":false,"bound":"read(write(x)) == x for EnclosingMethod, NestMembers (2 entries), MethodParameters (1 entry), Exceptions (1 entry) with symbolic field values; unwind 24","fns":["AttributeInfo::{_write,_len,_read}","pool_has_utf8"]}
+//# {"id":"c20_attr_fixed","props":["C20"],"tier":"quick","cap":600,"cover_playback":false,"bound":"the nine fixed-size attributes (ConstantValue, EnclosingMethod, Synthetic, Signature, SourceFile, Deprecated, ModuleMainClass, NestHost) with all u16 field values; unwind 8","fns":["raw_class_file::AttributeInfo::{_write,_len}"]}
+//# {"id":"c20_index_table_0","props":["C20"],"tier":"quick","cap":600,"cover_playback":false,"bound":"Exceptions / ModulePackages / NestMembers / PermittedSubclasses with 0 entries; unwind 8","fns":["AttributeInfo::{_write,_len}"]}
+//# {"id":"c20_index_table_1","props":["C20"],"tier":"quick","cap":600,"cover_playback":false,"bound":"Exceptions / ModulePackages / NestMembers / PermittedSubclasses with 1 entry, all u16 values; unwind 8","fns":["AttributeInfo::{_write,_len}"]}
+//# {"id":"c20_index_table_2","props":["C20"],"tier":"quick","cap":900,"cover_playback":false,"bound":"... with 2 entries, all u16 values; unwind 8","fns":["AttributeInfo::{_write,_len}"]}
+//# {"id":"c20_method_parameters_0","props":["C20"],"tier":"quick","cap":600,"cover_playback":false,"bound":"MethodParameters with 0 parameters; unwind 8","fns":["AttributeInfo::{_write,_len}","MethodParametersEntry::{_write,_len}"]}
+//# {"id":"c20_method_parameters_2","props":["C20"],"tier":"quick","cap":900,"cover_playback":false,"bound":"MethodParameters with 2 parameters, all u16 values; unwind 8","fns":["AttributeInfo::{_write,_len}","MethodParametersEntry::{_write,_len}"]}
+//# {"id":"c20_byte_blobs","props":["C20"],"tier":"quick","cap":900,"cover_playback":false,"bound":"SourceDebugExtension / Other with 0..=2 payload bytes (length concrete per branch), LineNumberTable with 1 entry; unwind 8","fns":["AttributeInfo::{_write,_len}","LineNumberTableEntry::{_write,_len}"]}
+//# {"id":"c20_cp_info","props":["C20"],"tier":"quick","cap":900,"cover_playback":false,"bound":"every fixed-size constant-pool entry kind with all field values, Utf8 with 0..=2 bytes: tag, layout, announced length; unwind 8","fns":["raw_class_file::CpInfo::{_write,_len}"]}
 proofs! {
 	#[cfg_attr(kani, kani::unwind(16))]
 	fn c20_stack_map_roundtrip() {
